@@ -46,29 +46,88 @@ func allLoopHeads(f *ssa.Function) []*ssa.BasicBlock {
 	return out
 }
 
-// checkEveryElementChecked: E6 dual — for every range loop over a slice in f,
-// another iteration cannot start without the nil-error (or true) edge of a
-// call that takes the current element (or a field of it).
+// validatingLoops returns the loop heads of f whose body has a branch with one
+// side reaching only error returns (i.e. loops that can reject).
+func (r *Run) validatingLoops(f *ssa.Function) []*ssa.BasicBlock {
+	ff := r.E.Facts(f, core.Ctx{})
+	var out []*ssa.BasicBlock
+	for _, head := range allLoopHeads(f) {
+		found := false
+		for _, b := range f.Blocks {
+			if !head.Dominates(b) || !blockReaches(ff, b, head, nil) {
+				continue
+			}
+			if enclosingLoopHead(f, b) != head && b != head {
+				continue // belongs to an inner loop
+			}
+			for _, s := range b.Succs {
+				if !blockReaches(ff, s, head, nil) && onlyErrors(ff, s) {
+					found = true
+				}
+			}
+		}
+		if found {
+			out = append(out, head)
+		}
+	}
+	return out
+}
+
+// checkEveryElementChecked: E6 dual — for every validating loop of f (a loop
+// that can reject), another iteration cannot start without passing the
+// accepting side of a branch whose rejecting side only reaches error returns
+// and whose condition is about the current element. minLoops is the number of
+// validating loops confirmed by reading (a deleted check turns a validating
+// loop into a plain one, which the floor catches).
 func (r *Run) checkEveryElementChecked(id string, f *ssa.Function, why string, minLoops int) {
 	ff := r.E.Facts(f, core.Ctx{})
-	heads := allLoopHeads(f)
-	rule := "E6 (dual): a validating loop cannot start another iteration without the success edge of a check on the current element"
+	heads := r.validatingLoops(f)
+	rule := "E6 (dual): a validating loop cannot start another iteration without the accepting edge of a check on the current element"
 	if len(heads) < minLoops {
-		r.R.Unk(id, rule, core.FuncName(f), r.where(f), why, fmt.Sprintf("%d loops found, %d expected", len(heads), minLoops))
+		r.R.Bad(id, rule, core.FuncName(f), r.where(f), why, fmt.Sprintf("%d validating loop(s) found, %d were confirmed by reading: a per-element check has been removed", len(heads), minLoops))
 		return
+	}
+	mentionsElem := func(fc core.Fact) bool {
+		has := func(t *core.Term) bool {
+			return t != nil && t.Contains(func(x *core.Term) bool { return x.Op == "idx" || x.Op == "range" || x.Op == "lookup" })
+		}
+		if has(fc.A) || has(fc.B) {
+			return true
+		}
+		for _, t := range fc.List {
+			if has(t) {
+				return true
+			}
+		}
+		return false
 	}
 	var bad []string
 	for li, head := range heads {
-		// edges carrying ok/true facts of calls whose argument mentions an indexed element
+		head := head
+		// per-iteration state computed inside the loop (e.g. a flag set by an inner loop) counts as being about the element
+		loopLocal := func(fc core.Fact) bool {
+			chk := func(t *core.Term) bool {
+				return t != nil && t.Contains(func(x *core.Term) bool {
+					if x.Op != "phi" {
+						return false
+					}
+					if pv, ok := x.Val.(*ssa.Phi); ok {
+						return pv.Block() != head && head.Dominates(pv.Block())
+					}
+					return false
+				})
+			}
+			return chk(fc.A) || chk(fc.B)
+		}
 		isCheckEdge := func(a, b *ssa.BasicBlock) bool {
+			if len(a.Succs) != 2 {
+				return false
+			}
+			// a decision about the current element (or per-iteration state): either the accepting side of a
+			// rejecting check, or a test that decides whether the element is subject to the check at all
 			for _, fc := range ff.EdgeFacts(a, b) {
-				if (fc.Kind == "ok" || fc.Kind == "true" || fc.Kind == "miss") && fc.A != nil {
-					if fc.Kind == "miss" {
-						return true
-					}
-					if fc.A.Contains(func(t *core.Term) bool { return t.Op == "idx" }) {
-						return true
-					}
+				if mentionsElem(fc) || loopLocal(fc) {
+					return true
 				}
 			}
 			return false
@@ -94,10 +153,10 @@ func (r *Run) checkEveryElementChecked(id string, f *ssa.Function, why string, m
 			}
 		}
 		if cycle {
-			bad = append(bad, fmt.Sprintf("loop %d (at %s) can iterate without checking its element", li+1, r.P.Pos(firstPos(head))))
+			bad = append(bad, fmt.Sprintf("validating loop %d (at %s) can iterate without checking its element", li+1, r.P.Pos(firstPos(head))))
 		}
 	}
-	r.R.Check(len(bad) == 0, id, rule, core.FuncName(f), r.where(f), why, fmt.Sprintf("%d loop(s), each iteration gated by a check on the element", len(heads)), strings.Join(bad, "; "))
+	r.R.Check(len(bad) == 0, id, rule, core.FuncName(f), r.where(f), why, fmt.Sprintf("%d validating loop(s), each iteration gated by a check on the element", len(heads)), strings.Join(bad, "; "))
 }
 
 func firstPos(b *ssa.BasicBlock) token.Pos {
